@@ -439,6 +439,26 @@ static void emit_mc(const char * comp, Pol & p, int ns) {
     l.emit();
 }
 
+// Monte-Carlo tables against the frequencies of an identical copy (same Experience, same engine state, inner policy included):
+// getPolicy() draws 100000 samples, getActionProbability(a) 1000 — the copy replays exactly those draws.
+template <class Pol>
+static void emit_mc2(const char * comp, Pol & p) {
+    size_t n = p.getA();
+    Pol c(p);
+    auto table = vecOf(p.getPolicy());
+    const size_t trials = 100000, qtrials = 1000;
+    std::vector<size_t> cnt(n, 0), qcnt(n, 0); size_t oor = 0;
+    for (size_t i = 0; i < trials; ++i) { size_t a = c.sampleAction(); if (a < n) ++cnt[a]; else ++oor; }
+    std::vector<double> probs(n);
+    for (size_t a = 0; a < n; ++a) {
+        probs[a] = p.getActionProbability(a);
+        for (size_t i = 0; i < qtrials; ++i) if (c.sampleAction() == a) ++qcnt[a];
+    }
+    Line l; l << "C09" << "mc2" << comp << n << trials; for (auto x : cnt) l << x; l << qtrials; for (auto x : qcnt) l << x;
+    l << "|"; putRow(l, table); putRow(l, probs); l.emit();
+    (void)oor;
+}
+
 // ---- ESRL
 static void emit_esrl(Rng & rng, size_t n, double a, unsigned N, unsigned phases, unsigned window, int k) {
     reseed();
@@ -770,11 +790,11 @@ void verif::verif_case(Rng & rng, long idx, const std::string & tier) {
                }
                if ((idx / 14) % 4 == 0) {
                    // Monte-Carlo tables (positive rewards only for TopTwo: its rejection loop needs a second arm to ever win)
-                   Rng r3 = rng; auto ep = makeExp(r3, nn, 12.0, 2.0, false, 0.0);
+                   Rng r3 = rng; auto ep = makeExp(r3, nn, reg == 2 ? centre : (rng.coin() ? 12.0 : -12.0), 2.0, false, 0.0);
                    reseed();
-                   B::ThompsonSamplingPolicy tp(ep); emit_mc("ThompsonSamplingPolicy", tp, 4);
-                   B::TopTwoThompsonSamplingPolicy tt(ep, 0.5); emit_mc("TopTwoThompsonSamplingPolicy", tt, 4);
-                   B::T3CPolicy t3(ep, 0.5, 1.0); emit_mc("T3CPolicy", t3, 4);
+                   B::ThompsonSamplingPolicy tp(ep); emit_mc("ThompsonSamplingPolicy", tp, 4); emit_mc2("ThompsonSamplingPolicy", tp);
+                   B::TopTwoThompsonSamplingPolicy tt(ep, 0.5); emit_mc("TopTwoThompsonSamplingPolicy", tt, 4); emit_mc2("TopTwoThompsonSamplingPolicy", tt);
+                   B::T3CPolicy t3(ep, 0.5, 1.0); emit_mc("T3CPolicy", t3, 4); emit_mc2("T3CPolicy", t3);
                }
                break; }
     case 12: { double a = kAB[rng.below(7)]; size_t nn = n < 2 ? 2 : n;
